@@ -13,11 +13,50 @@ package security
 //@ func NewCert
 //@   assumed
 //@   modifies nothing
-//@ func NewCertPool
+// NewCertPool: the pool of accepted issuers holds the certificates of the configured CA files and
+// NOTHING else - it starts empty (not from the operating system's trust store), and every addition
+// is a certificate parsed from a PEM block of one of the files. Ghost `extra`: the pool contains
+// certificates other than those added to it since it was made; ghost `nadd`: additions so far.
+//@ import pem "encoding/pem"
+//@ import os "os"
+//@ ghostfield any.extra Bool
+//@ ghostfield any.nadd Int
+//@ ghostfield any.parsed Bool
+//@ func x509.NewCertPool
 //@   assumed
-//@   results pool, err
-//@   ensures err == nil ==> pool != nil
+//@   ensures result != nil && fresh(result) && !result.extra && result.nadd == 0
 //@   modifies nothing
+//@ func x509.SystemCertPool
+//@   assumed
+//@   results p, err
+//@   ensures err == nil ==> p != nil && fresh(p)      // whatever the operating system trusts: `extra` is open
+//@   modifies nothing
+//@ func os.ReadFile
+//@   assumed
+//@   modifies nothing
+//@ func pem.Decode
+//@   assumed
+//@   results p, rest
+//@   ensures p != nil ==> fresh(p)
+//@   modifies nothing
+//@ func x509.ParseCertificate
+//@   assumed
+//@   results c, err
+//@   ensures err == nil ==> c != nil && fresh(c) && c.parsed
+//@   modifies nothing
+//@ func x509.(*CertPool).AddCert
+//@   assumed
+//@   params s, cert
+//@   requires cert != nil
+//@   ensures s.nadd == old(s.nadd) + 1 && s.extra == old(s.extra)
+//@   modifies s.nadd
+//@ func NewCertPool
+//@   results pool, err
+//@   before x509.(*CertPool).AddCert assert [C17.pool.parsed] cert.parsed && s == certPool
+//@   ensures [C17.pool.only] err == nil ==> pool != nil && fresh(pool) && !pool.extra
+//@   modifies nothing
+//@   loop 0 invariant certPool != nil && fresh(certPool) && !certPool.extra && -1 <= rangeindex && rangeindex < len(CAFiles)
+//@   loop 1 invariant certPool != nil && fresh(certPool) && !certPool.extra && -1 <= rangeindex && rangeindex < len(CAFiles)
 //@ func zap.NewNop
 //@   assumed
 //@   ensures result != nil
